@@ -84,7 +84,18 @@ pub fn build(
         return Ok(None);
     };
 
-    // TODO: verify that `ty` actually makes sense for an enum
+    // The enum is emitted as `#[repr(<ty>)]`, which only takes the primitive integer types
+    const INTEGER_TYPES: [&str; 10] = [
+        "u8", "u16", "u32", "u64", "u128", "i8", "i16", "i32", "i64", "i128",
+    ];
+    let is_integer = matches!(
+        &ty,
+        Type::Raw(path) if path.len() == 1
+            && path.last().is_some_and(|s| INTEGER_TYPES.contains(&s.as_str()))
+    );
+    if !is_integer {
+        anyhow::bail!("enum `{resolvee_path}` has base type `{ty}`, which is not an integer type");
+    }
     let Some(size) = ty.size(&semantic.type_registry) else {
         return Ok(None);
     };
